@@ -187,6 +187,8 @@ class Lower:
             elif op == '=' or op.endswith('=') and op not in ('==', '!=', '<=', '>='):
                 self.flags.append(('assign-in-expr', e['l']))
                 return ('op', 'assign' + op, a, b)
+            if op == '/' and _int_valued(e['a']) and _int_valued(e['b']):
+                return ('op', 'idiv', a, b)      # C++ integer division truncates
             return ('op', op, a, b)
         if k == 'Cond':
             return ('op', '?:', self.ex(e['c']), self.ex(e['a']), self.ex(e['b']))
